@@ -213,8 +213,11 @@ class World:
         self.backend = None
         xweb.open_store_from_path.cache_clear()
 
-    def restart(self):
+    def restart(self, defaults=None):
+        """Stop and start again; defaults: start with (True) / without (False) --defaults."""
         self.stop()
+        if defaults is not None:
+            self.defaults = bool(defaults)
         self.start()
 
     def close(self):
